@@ -5,6 +5,7 @@ pipeline of every intermediate stream vs the Lean model.  Oracle: plain-Python b
 after all later steps and twice in a row."""
 import copy
 import csv
+import hashlib
 import itertools
 import os
 import shutil
@@ -59,7 +60,7 @@ def make_stream(fns, kind, names, rows, tmpdir):
         seq[n] = BaseType(n)
     if kind == "it":
         return IterData([tuple(r) for r in rows], copy.copy(seq))
-    path = os.path.join(tmpdir, "t%d.csv" % (abs(hash((tuple(names), tuple(rows)))) % 10 ** 12))
+    path = os.path.join(tmpdir, "t%s.csv" % hashlib.md5(repr((tuple(names), tuple(rows))).encode()).hexdigest()[:16])
     if not os.path.exists(path):
         with open(path, "w", newline="") as f:
             w = csv.writer(f, quoting=csv.QUOTE_NONNUMERIC)
@@ -463,7 +464,7 @@ def run(ctx):
                 "(constructor, table, program)")
     ctx.assumptions = ["Python list/itertools.islice/csv.reader semantics; cell comparison and ast.literal_eval are "
                        "parameters shared by model and reference (driver instances compared on every generated literal)",
-                       "C17 theorems cover flat tables; nested sequence levels and Python object aliasing (copied lists, "
+                       "C17 theorems cover flat tables and one nested sequence level (a filter after a child selection into the nested sequence is an open finding); Python object aliasing (copied lists, "
                        "copied template) are exercised by the harness only (see design_notes/C17.md)"]
     ctx.proof_phase()
     fns = load()
